@@ -145,6 +145,7 @@ package snaps
 //@   pure
 //@   assigns nothing
 //@   ensures noEND(r)
+//@   loop 1 invariant len(snapshots) == len(objects) && 0 <= $idx
 //@
 //@ func unescapeEndChars(s) returns (r)
 //@   mode lines
@@ -485,7 +486,7 @@ package snaps
 //@   assigns nErr[t], lastErr[t], nLog[t], lastLog[t], nCleanup[t], lastCleanup[t]
 //@   assigns testEvents.items[erred], testEvents.items[added], testEvents.items[updated], testEvents.items[passed]
 //@   assigns testsRegistry.running[sp], testsRegistry.cleanup[sp], testsRegistry.running[sp][tname(t)], testsRegistry.cleanup[sp][tname(t)]
-//@   assigns fsx[sp], fsc[sp], fsdir, fswrites, alloc
+//@   assigns fsx[sp], fsc[sp], fsdir, fswrites, alloc, nDelPrinted, nInsPrinted
 //@   ensures [nocall] len(values) == 0 ==> dErr == 0 && dLog == 1 && nowrite && dFail == 0 && dAdd == 0 && dUpd == 0 && dPass == 0
 //@   ensures [ordinal] len(values) > 0 ==> ordinalTaken
 //@   ensures [one_outcome] len(values) > 0 ==>
@@ -556,7 +557,7 @@ package snaps
 //@   assigns nErr[t], lastErr[t], nLog[t], lastLog[t], nCleanup[t], lastCleanup[t]
 //@   assigns testEvents.items[erred], testEvents.items[added], testEvents.items[updated], testEvents.items[passed]
 //@   assigns testsRegistry.running[sp], testsRegistry.cleanup[sp], testsRegistry.running[sp][tname(t)], testsRegistry.cleanup[sp][tname(t)]
-//@   assigns fsx[sp], fsc[sp], fsdir, fswrites, alloc
+//@   assigns fsx[sp], fsc[sp], fsdir, fswrites, alloc, nDelPrinted, nInsPrinted
 //@   ensures [invalid] !valid ==> failed && nowrite && ordinalTaken
 //@   ensures [matcher_errors] valid && nme > 0 ==> failed && nowrite && ordinalTaken
 //@   ensures [ordinal] true ==> ordinalTaken
@@ -628,7 +629,7 @@ package snaps
 //@   assigns nErr[t], lastErr[t], nLog[t], lastLog[t], nCleanup[t], lastCleanup[t]
 //@   assigns testEvents.items[erred], testEvents.items[added], testEvents.items[updated], testEvents.items[passed]
 //@   assigns testsRegistry.running[sp], testsRegistry.cleanup[sp], testsRegistry.running[sp][tname(t)], testsRegistry.cleanup[sp][tname(t)]
-//@   assigns fsx[sp], fsc[sp], fsdir, fswrites, alloc
+//@   assigns fsx[sp], fsc[sp], fsdir, fswrites, alloc, nDelPrinted, nInsPrinted
 //@   ensures [invalid] !valid ==> failed && nowrite && ordinalTaken
 //@   ensures [matcher_errors] valid && nme > 0 ==> failed && nowrite && ordinalTaken
 //@   ensures [ordinal] true ==> ordinalTaken
@@ -690,7 +691,7 @@ package snaps
 //@   assigns nErr[t], lastErr[t], nLog[t], lastLog[t], nCleanup[t], lastCleanup[t]
 //@   assigns testEvents.items[erred], testEvents.items[added], testEvents.items[updated], testEvents.items[passed]
 //@   assigns standaloneTestsRegistry.running[gp], standaloneTestsRegistry.cleanup[gp]
-//@   assigns fsx[sp], fsc[sp], fsdir, fswrites, alloc
+//@   assigns fsx[sp], fsc[sp], fsdir, fswrites, alloc, nDelPrinted, nInsPrinted
 //@   ensures [ordinal] ordinalTaken
 //@   ensures [one_outcome] true ==>
 //@        failed
@@ -750,7 +751,7 @@ package snaps
 //@   assigns nErr[t], lastErr[t], nLog[t], lastLog[t], nCleanup[t], lastCleanup[t]
 //@   assigns testEvents.items[erred], testEvents.items[added], testEvents.items[updated], testEvents.items[passed]
 //@   assigns standaloneTestsRegistry.running[gp], standaloneTestsRegistry.cleanup[gp]
-//@   assigns fsx[sp], fsc[sp], fsdir, fswrites, alloc
+//@   assigns fsx[sp], fsc[sp], fsdir, fswrites, alloc, nDelPrinted, nInsPrinted
 //@   ensures [invalid] !valid ==> failed && nowrite && ordinalTaken
 //@   ensures [matcher_errors] valid && nme > 0 ==> failed && nowrite && ordinalTaken
 //@   ensures [ordinal] ordinalTaken
@@ -805,7 +806,7 @@ package snaps
 //@   assigns nErr[t], lastErr[t], nLog[t], lastLog[t], nCleanup[t], lastCleanup[t]
 //@   assigns testEvents.items[erred], testEvents.items[added], testEvents.items[updated], testEvents.items[passed]
 //@   assigns testsRegistry.running[sp], testsRegistry.cleanup[sp], testsRegistry.running[sp][tname(t)], testsRegistry.cleanup[sp][tname(t)]
-//@   assigns fsx[sp], fsc[sp], fsdir, fswrites, alloc
+//@   assigns fsx[sp], fsc[sp], fsdir, fswrites, alloc, nDelPrinted, nInsPrinted
 //@   ensures [nocall] len(values) == 0 ==> dErr == 0 && dLog == 1 && nowrite && dFail == 0 && dAdd == 0 && dUpd == 0 && dPass == 0
 //@   ensures [ordinal] len(values) > 0 ==> ordinalTaken
 //@   ensures [one_outcome] len(values) > 0 ==>
@@ -862,7 +863,7 @@ package snaps
 //@   assigns nErr[t], lastErr[t], nLog[t], lastLog[t], nCleanup[t], lastCleanup[t]
 //@   assigns testEvents.items[erred], testEvents.items[added], testEvents.items[updated], testEvents.items[passed]
 //@   assigns testsRegistry.running[sp], testsRegistry.cleanup[sp], testsRegistry.running[sp][tname(t)], testsRegistry.cleanup[sp][tname(t)]
-//@   assigns fsx[sp], fsc[sp], fsdir, fswrites, alloc
+//@   assigns fsx[sp], fsc[sp], fsdir, fswrites, alloc, nDelPrinted, nInsPrinted
 //@   ensures [nocall] len(values) == 0 ==> dErr == 0 && dLog == 1 && nowrite && dFail == 0 && dAdd == 0 && dUpd == 0 && dPass == 0
 //@   ensures [ordinal] len(values) > 0 ==> ordinalTaken
 //@   ensures [one_outcome] len(values) > 0 ==>
@@ -924,7 +925,7 @@ package snaps
 //@   assigns nErr[t], lastErr[t], nLog[t], lastLog[t], nCleanup[t], lastCleanup[t]
 //@   assigns testEvents.items[erred], testEvents.items[added], testEvents.items[updated], testEvents.items[passed]
 //@   assigns testsRegistry.running[sp], testsRegistry.cleanup[sp], testsRegistry.running[sp][tname(t)], testsRegistry.cleanup[sp][tname(t)]
-//@   assigns fsx[sp], fsc[sp], fsdir, fswrites, alloc
+//@   assigns fsx[sp], fsc[sp], fsdir, fswrites, alloc, nDelPrinted, nInsPrinted
 //@   ensures [invalid] !valid ==> failed && nowrite && ordinalTaken
 //@   ensures [matcher_errors] valid && nme > 0 ==> failed && nowrite && ordinalTaken
 //@   ensures [ordinal] true ==> ordinalTaken
@@ -986,7 +987,7 @@ package snaps
 //@   assigns nErr[t], lastErr[t], nLog[t], lastLog[t], nCleanup[t], lastCleanup[t]
 //@   assigns testEvents.items[erred], testEvents.items[added], testEvents.items[updated], testEvents.items[passed]
 //@   assigns testsRegistry.running[sp], testsRegistry.cleanup[sp], testsRegistry.running[sp][tname(t)], testsRegistry.cleanup[sp][tname(t)]
-//@   assigns fsx[sp], fsc[sp], fsdir, fswrites, alloc
+//@   assigns fsx[sp], fsc[sp], fsdir, fswrites, alloc, nDelPrinted, nInsPrinted
 //@   ensures [invalid] !valid ==> failed && nowrite && ordinalTaken
 //@   ensures [matcher_errors] valid && nme > 0 ==> failed && nowrite && ordinalTaken
 //@   ensures [ordinal] true ==> ordinalTaken
@@ -1049,7 +1050,7 @@ package snaps
 //@   assigns nErr[t], lastErr[t], nLog[t], lastLog[t], nCleanup[t], lastCleanup[t]
 //@   assigns testEvents.items[erred], testEvents.items[added], testEvents.items[updated], testEvents.items[passed]
 //@   assigns testsRegistry.running[sp], testsRegistry.cleanup[sp], testsRegistry.running[sp][tname(t)], testsRegistry.cleanup[sp][tname(t)]
-//@   assigns fsx[sp], fsc[sp], fsdir, fswrites, alloc
+//@   assigns fsx[sp], fsc[sp], fsdir, fswrites, alloc, nDelPrinted, nInsPrinted
 //@   ensures [invalid] !valid ==> failed && nowrite && ordinalTaken
 //@   ensures [matcher_errors] valid && nme > 0 ==> failed && nowrite && ordinalTaken
 //@   ensures [ordinal] true ==> ordinalTaken
@@ -1111,7 +1112,7 @@ package snaps
 //@   assigns nErr[t], lastErr[t], nLog[t], lastLog[t], nCleanup[t], lastCleanup[t]
 //@   assigns testEvents.items[erred], testEvents.items[added], testEvents.items[updated], testEvents.items[passed]
 //@   assigns testsRegistry.running[sp], testsRegistry.cleanup[sp], testsRegistry.running[sp][tname(t)], testsRegistry.cleanup[sp][tname(t)]
-//@   assigns fsx[sp], fsc[sp], fsdir, fswrites, alloc
+//@   assigns fsx[sp], fsc[sp], fsdir, fswrites, alloc, nDelPrinted, nInsPrinted
 //@   ensures [invalid] !valid ==> failed && nowrite && ordinalTaken
 //@   ensures [matcher_errors] valid && nme > 0 ==> failed && nowrite && ordinalTaken
 //@   ensures [ordinal] true ==> ordinalTaken
@@ -1166,7 +1167,7 @@ package snaps
 //@   assigns nErr[t], lastErr[t], nLog[t], lastLog[t], nCleanup[t], lastCleanup[t]
 //@   assigns testEvents.items[erred], testEvents.items[added], testEvents.items[updated], testEvents.items[passed]
 //@   assigns standaloneTestsRegistry.running[gp], standaloneTestsRegistry.cleanup[gp]
-//@   assigns fsx[sp], fsc[sp], fsdir, fswrites, alloc
+//@   assigns fsx[sp], fsc[sp], fsdir, fswrites, alloc, nDelPrinted, nInsPrinted
 //@   ensures [ordinal] ordinalTaken
 //@   ensures [one_outcome] true ==>
 //@        failed
@@ -1213,7 +1214,7 @@ package snaps
 //@   assigns nErr[t], lastErr[t], nLog[t], lastLog[t], nCleanup[t], lastCleanup[t]
 //@   assigns testEvents.items[erred], testEvents.items[added], testEvents.items[updated], testEvents.items[passed]
 //@   assigns standaloneTestsRegistry.running[gp], standaloneTestsRegistry.cleanup[gp]
-//@   assigns fsx[sp], fsc[sp], fsdir, fswrites, alloc
+//@   assigns fsx[sp], fsc[sp], fsdir, fswrites, alloc, nDelPrinted, nInsPrinted
 //@   ensures [ordinal] ordinalTaken
 //@   ensures [one_outcome] true ==>
 //@        failed
@@ -1265,7 +1266,7 @@ package snaps
 //@   assigns nErr[t], lastErr[t], nLog[t], lastLog[t], nCleanup[t], lastCleanup[t]
 //@   assigns testEvents.items[erred], testEvents.items[added], testEvents.items[updated], testEvents.items[passed]
 //@   assigns standaloneTestsRegistry.running[gp], standaloneTestsRegistry.cleanup[gp]
-//@   assigns fsx[sp], fsc[sp], fsdir, fswrites, alloc
+//@   assigns fsx[sp], fsc[sp], fsdir, fswrites, alloc, nDelPrinted, nInsPrinted
 //@   ensures [invalid] !valid ==> failed && nowrite && ordinalTaken
 //@   ensures [matcher_errors] valid && nme > 0 ==> failed && nowrite && ordinalTaken
 //@   ensures [ordinal] ordinalTaken
@@ -1318,7 +1319,7 @@ package snaps
 //@   assigns nErr[t], lastErr[t], nLog[t], lastLog[t], nCleanup[t], lastCleanup[t]
 //@   assigns testEvents.items[erred], testEvents.items[added], testEvents.items[updated], testEvents.items[passed]
 //@   assigns standaloneTestsRegistry.running[gp], standaloneTestsRegistry.cleanup[gp]
-//@   assigns fsx[sp], fsc[sp], fsdir, fswrites, alloc
+//@   assigns fsx[sp], fsc[sp], fsdir, fswrites, alloc, nDelPrinted, nInsPrinted
 //@   ensures [invalid] !valid ==> failed && nowrite && ordinalTaken
 //@   ensures [matcher_errors] valid && nme > 0 ==> failed && nowrite && ordinalTaken
 //@   ensures [ordinal] ordinalTaken
